@@ -27,6 +27,47 @@ def sig_of(cfg, clause):
     return s
 
 
+def selftests(pid, live, rej, sc):
+    """corrupt one logged field of an accepted trace: the monitor must reject it"""
+    import copy
+
+    bad = {r["tid"] for r in rej}
+    good = [t for k, t in enumerate(live) if k not in bad and len(t["ev"]) >= 3 and not t.get("exc")]
+    if not good:
+        return 0
+    slim = lambda t: {k: v for k, v in t.items() if k != "cfg"}
+    out = []
+    if pid in ("C09", "C08"):
+        t = next((x for x in good if x["kind"] == "ode" and x["stores"][0]["b"] < len(x["stores"][0]["init"])), None)
+        if t is not None:
+            c = copy.deepcopy(slim(t))
+            c["ev"][1]["st"][0]["bt"] = list(reversed(c["ev"][1]["st"][0]["bt"])) if len(set(c["ev"][1]["st"][0]["bt"])) > 1 else [0] * len(c["ev"][1]["st"][0]["bt"])
+            out.append((c, "BatchNotSliceOfStore" if len(set(t["ev"][1]["st"][0]["bt"])) > 1 else None, "batch rows permuted / replaced"))
+            c = copy.deepcopy(slim(t))
+            c["ev"][1]["st"][0]["order"][0] = 0
+            out.append((c, "StoreNotPermutation", "a stored point replaced by an unknown value"))
+        if pid == "C09":
+            t2 = next((x for x in good if x["kind"] == "ode" and len(x["ev"]) >= 4 and len(x["stores"][0]["init"]) >= 3 * x["stores"][0]["b"]
+                       and all(m for m in x["stores"][0]["mask"])), None)
+            if t2 is not None:
+                c = copy.deepcopy(slim(t2))
+                del c["ev"][1]
+                out.append((c, "ExpectedAdvance", "one get_batch event dropped"))
+    if pid == "C14":
+        t = next((x for x in good if x["kind"] == "nonstatio" and x["cart"] and len(x["ev"][0]["inside"]) >= 2), None)
+        if t is not None:
+            c = copy.deepcopy(slim(t))
+            c["ev"][0]["inside"][0], c["ev"][0]["inside"][1] = c["ev"][0]["inside"][1], c["ev"][0]["inside"][0]
+            out.append((c, None, "two rows of the space-time batch swapped"))
+    if pid == "C15":
+        t = next((x for x in good if x["kind"] == "obs" and len(x["ev"][0]["st"][0]["rows"][0]) >= 2), None)
+        if t is not None:
+            c = copy.deepcopy(slim(t))
+            c["ev"][0]["st"][0]["rows"][0][1] = (c["ev"][0]["st"][0]["rows"][0][1] % len(c["stores"][0]["init"])) + 1 if len(c["stores"][0]["init"]) > 1 else 0
+            out.append((c, "RowPartsMisaligned", "value of a batch row taken from another table row"))
+    return tracecheck.selftest("Trace_DataGen", TRACE_CFG % pid, out, sc, "st" + pid)
+
+
 def run(pid, tier, seed, *, mc, cfgs, assumptions, level="model_checking", rule=""):
     """mc: list of dict(module, cfg, tag, expect='pass' | ('fail', needle), workers)"""
     t0 = time.time()
@@ -62,6 +103,7 @@ def run(pid, tier, seed, *, mc, cfgs, assumptions, level="model_checking", rule=
                              (f" exc={t['exc']}" if t.get("exc") else ""), driver="harness.drv_datagen:run_case",
                              cfg=t["cfg"], record=t))
         rc, n_new, n_known = core.report(pid, viol)
+        nself = selftests(pid, live, rej, sc)
         events = sum(len(t["ev"]) for t in live)
         clauses = {}
         for v in viol:
@@ -86,6 +128,7 @@ def run(pid, tier, seed, *, mc, cfgs, assumptions, level="model_checking", rule=
             rejected_by_clause=clauses,
             traces_by_kind=kinds,
             known_finding_hits=n_known,
+            binding_selftests_rejected=nself,
             rule=rule,
         )
         core.write_evidence(pid, tier, seed, level, cov, assumptions, time.time() - t0, n_new)
